@@ -14,6 +14,14 @@
 #include "stringf.h"
 #include "util.h"
 
+// Chunks start on even offsets only: a 32-bit field may sit on an address that is 2 mod 4.
+static inline uint32_t load_u32(const uint8_t* p)
+{
+	uint32_t v;
+	memcpy(&v, p, sizeof(v));
+	return v;
+}
+
 static bool operator==(const Wave_Bank::Sample& s1, const Wave_Bank::Sample& s2)
 {
 	// Can't directly compare structs properly, so we convert to bytes instead
@@ -61,7 +69,7 @@ int Wave_File::read(const std::string& filename)
 		fprintf(stderr,"Riff header not found in '%s'\n", filename.c_str());
 		return -1;
 	}
-	wavesize = (*(uint32_t*)(filebuf+4)) + 8;
+	wavesize = load_u32(filebuf+4) + 8;
 	pos += 8;
 	if(filesize != wavesize)
 	{
@@ -79,7 +87,7 @@ int Wave_File::read(const std::string& filename)
 	{
 		uint32_t chunksize, ret;
 
-		chunksize = *(uint32_t*)(filebuf+pos+4);
+		chunksize = load_u32(filebuf+pos+4);
 		if(chunksize > filesize - pos - 8)
 		{
 			printf("Illegal chunk size (%d, %d)\n", pos+chunksize+8, filesize);
@@ -127,8 +135,8 @@ int Wave_File::load_file(const std::string& filename, uint8_t** buffer, uint32_t
 
 uint32_t Wave_File::parse_chunk(const uint8_t *fdata)
 {
-	uint32_t chunkid = *(uint32_t*)(fdata);
-	uint32_t chunksize = *(uint32_t*)(fdata+4);
+	uint32_t chunkid = load_u32(fdata);
+	uint32_t chunksize = load_u32(fdata+4);
 	//printf("Parse the %c%c%c%c chunk with %d size\n", fdata[0],fdata[1],fdata[2],fdata[3], chunksize);
 	uint32_t pos = 0;
 	switch(chunkid)
@@ -142,7 +150,7 @@ uint32_t Wave_File::parse_chunk(const uint8_t *fdata)
 			channels = *(uint16_t*)(fdata+0x0a);
 			sbits = *(uint16_t*)(fdata+0x16);
 			step = ((uint32_t)sbits * channels) / 8; // two uint16_t promote to int: 51464 * 49921 would overflow
-			srate = *(uint32_t*)(fdata+0x0c);
+			srate = load_u32(fdata+0x0c);
 			slength = 0;
 			if(stype != 1 || channels > 2 || step == 0 || (sbits != 8 && sbits != 16))
 			{
@@ -180,14 +188,14 @@ uint32_t Wave_File::parse_chunk(const uint8_t *fdata)
 			use_smpl_chunk = 1;
 			if(chunksize >= 0x10)
 			{
-				transpose = *(uint32_t*)(fdata+0x14);
+				transpose = load_u32(fdata+0x14);
 				if(!transpose)
 					transpose -= 60;
 			}
-			if(chunksize >= 0x34 && *(uint32_t*)(fdata+0x24))
+			if(chunksize >= 0x34 && load_u32(fdata+0x24))
 			{
-				lstart = *(uint32_t*)(fdata+0x2c+8);
-				lend = *(uint32_t*)(fdata+0x2c+12) + 1;
+				lstart = load_u32(fdata+0x2c+8);
+				lend = load_u32(fdata+0x2c+12) + 1;
 				slength = lend;
 			}
 			break;
